@@ -521,6 +521,120 @@ CONFIG['C11'] = {'assumptions': ['form-field names, file-field names and file na
                   'at least one byte; the pipe as the byte string the goroutine writes); goroutine scheduling and resource release are C12',
                   'http.NewRequestWithContext keeps the body it is given (bytes.Buffer, or the reader wrapped in NopCloser)']}
 
+CONFIG['C03'] = {'assumptions': ['strings.TrimSpace / ToLower are modelled on ASCII; generated separators and padding are ASCII (non-ASCII bytes appear only inside '
+                 'string items)',
+                 'header values are fed as given (no OWS trimming by a wire parser); header names are tokens',
+                 'defaults are well typed and within the declared range (|integer default| < 2^53): an ill-typed default is not a declaration the '
+                 'description language allows',
+                 "unsigned integer formats (uint32, uint64 — go-openapi extensions outside the property's quantifier) are not generated: the "
+                 'validator answers 500 for negative values',
+                 'arrays of named string formats (uuid, email) are not generated: go-openapi/validate never validates item formats (it consults the '
+                 'parameter, not the items)'],
+ 'exhaustive': 'the decision table {absent, empty, text} x required x allowEmptyValue x default is enumerated completely on every run for 12 scalar '
+               'kinds x 5 locations and for arrays of 11 kinds x {csv, pipes, multi} x {query, header, formData} (about 3400 cases, before the '
+               'random cases); everything else is sampled',
+ 'go_entry': 'middleware.Serve + untyped API handler (stream H), middleware.UntypedRequestBinder.Bind (stream B)',
+ 'model_fn': 'bind (getOK / splitByFormat / setFieldValue / setSliceFieldValue / validate)',
+ 'partial': ['C03_holds_outside_known is stated for Decl.wf / Req.wf inputs (well-typed in-range defaults, multi only in query/formData, token '
+             'header names, one value per path parameter, strfmt graph in which the empty text unmarshals and named string types render as their '
+             'text); the driver tags every case outside it with !wf (only the deliberate multi-in-header/path declarations)',
+             'number values: accept/reject and the value are stated against the hand model of float rounding (parseFloatFor); no theorem about IEEE '
+             'rounding',
+             'registered string formats (strfmt) and declared validations (validate) are external: theorems are parametric in their graph; covered '
+             'by correspondence only',
+             'type: file parameters are not modelled',
+             'struct targets of UntypedRequestBinder.Bind are not exercised (map targets only)'],
+ 'quick_n': 20000,
+ 'rule': 'one declared non-body parameter x one request. Declarations: location {query, header, path, formData urlencoded, formData multipart} x '
+         '{integer int8/int16/int32/int64/none/unknown format, number float/double/none/unknown, boolean, string plain/unknown '
+         'format/date/byte/uuid/email, array of those with none/csv/ssv/tsv/pipes/multi (multi in header/path occasionally)} x required x '
+         'allowEmptyValue x well-typed default (scalar or array) x validations (min/max/enum on integers, minLength/maxLength/enum on strings, '
+         'minItems/maxItems/uniqueItems on arrays). Texts per declared type: boundary literals +-2^(w-1), +-1 and +-2 around them for the declared '
+         'and the other widths, signs, leading zeros, 0x.., 1_0, exponents, decimals, inf/Infinity/NaN in several cases, hex floats, float64/float32 '
+         'overflow and underflow edges, empty, white space, junk, non-ASCII digits; 1-3 repeated values; array values joined by the declared or '
+         'another separator with padding, empty items and trailing separators; the key sent in the declared case, upper, lower, canonical, random '
+         'case, or another key; key absent. 8 requests per declaration (12 thorough), 3 in 5 through the full API handler, 2 in 5 through '
+         'UntypedRequestBinder.Bind. A case is trivial only when the parameter is absent, optional, without default and without validations.',
+ 'search_s': 60,
+ 'thorough_n': 250000,
+ 'thorough_seeds': 4,
+ 'trusted_base': ['reading of the property text into the Lean `Spec` (human step, RtVerif/Model/<id>.lean)',
+                  'correspondence check (differential: Go harness /verif/harness -> protocol lines -> compiled Lean driver rtdriver evaluating Model '
+                  'and Spec); coverage bounded by the generators',
+                  "factgen (go/ast extraction of constants/tables into RtVerif/Gen/Facts.lean) and the driver's line parser",
+                  'strfmt (registered string formats): UnmarshalText of the registered Go type and Registry.Validates are EXTERNAL: the harness '
+                  'passes their graph on the texts of the case as an input column; the model decides when they are called and what is done with the '
+                  'result',
+                  'go-openapi/validate (parameter validator run after binding): hand model of the required-string rule, min/max, enum, '
+                  'minLength/maxLength, minItems/maxItems/uniqueItems; checked by correspondence only',
+                  'strconv.ParseFloat: the accept set is transcribed (Base.Num.floatLex); the float VALUE is a hand model (exact rational, '
+                  'round-half-even to float64, then to float32) validated bit-for-bit by correspondence, not proved',
+                  'net/http: header names are canonicalised when a request is read (modelled by canonHeader, ASCII), url.ParseQuery / ParseForm / '
+                  'multipart parsing deliver the values in order (the harness feeds encoded requests; stream B hand-built ones)',
+                  'reflect: Kind of the Go types typeForSchema returns; SetInt/SetFloat on values already checked by OverflowInt/OverflowFloat']}
+
+CONFIG['C09'] = {'assumptions': ['request bodies announce their length (ContentLength = len(body)); a stream of unknown length is first wrapped by runtime.HasBody '
+                 'in a peeking reader on the request value it was given (C17), which is not modelled',
+                 'every security scheme named by the spec has a registered authenticator (an alternative naming an unregistered scheme is C02)',
+                 'validation error codes are compared as sorted lists (the binder walks a Go map); generated requests of stream R have at most one '
+                 'failing parameter, 405 cases have a single other method, and the two schemes of the AND alternative carry the same credential '
+                 '(their order is decided by a Go map when the router is built)',
+                 'Authorize/BindAndValidate receive the route the way the callers in the library obtain it: RouteInfo on the same request value'],
+ 'exhaustive': 'every sequence of the six accessors up to length 3 (thorough: 4), threaded, on 3 (thorough: 7) fixed requests is run on every check; '
+               'the rest of the space is sampled',
+ 'go_entry': 'middleware.Context.RouteInfo / ContentType / ResponseFormat / Authorize / BindAndValidate / ResetAuth, MatchedRouteFrom, '
+             'SecurityPrincipalFrom, SecurityScopesFrom (stream A); the middleware.Serve handler under concurrency (stream R)',
+ 'model_fn': 'stepOp / runProg (routeInfo, contentType, responseFormat, authorize [rasAuth, raAuth], bindAndValidate [validateRequest], resetAuth), '
+             'runSched',
+ 'partial': ['data-race freedom and memory visibility are NOT proved (runtime facts): FullStatement keeps them as the parameters DataRaceFree and '
+             'StepModelFaithful; full_statement_partial proves the memoisation part for all programs and the interleaving part on the step model. '
+             'Support: stream R in the -race build (tier race) with per-request correlation tokens',
+             'the property restricts itself to what a handler gets through the map path of UntypedRequestBinder.Bind; the struct path writes '
+             'binder.Name on the shared binder (regenerated fact c09BinderMapPathWrites covers the map path only)'],
+ 'quick_n': 60000,
+ 'race_n': 100,
+ 'race_thorough_factor': 10,
+ 'rule': 'stream A: one real request against one real middleware.Context (NewRoutableContext over the default router wrapped in a lookup counter; '
+         'API with 5 operations: unsecured, key OR (basic AND tok), anonymous OR key, key with two scopes; with and without an authorizer), '
+         'instrumented authenticators / authorizer / consumers and a counting body reader. Requests: 9 method+path shapes (matching, unknown path, '
+         'wrong method, trailing slash, doubled slash, dot segment, escaped id) x 6 queries x Content-Type {absent, json, text/plain, with '
+         'parameters, upper case, not consumed, wildcard, malformed, two lines} x Accept {absent, exact, ranges with q, unsatisfiable, two lines} x '
+         'per-scheme credentials {absent, principal, accepted with nil principal, 401, 403, plain error} x authorizer verdict {allow, 403, 401, '
+         'plain error} x body {none, JSON, text, undecodable, 300 bytes}. Programs: random sequences of 1-12 accessor calls (RouteInfo, ContentType, '
+         'ResponseFormat with one of up to 3 offer lists, Authorize, BindAndValidate, ResetAuth), threading the returned request; in 1 case of 4 a '
+         'third of the calls is applied to a STALE request value (held 1-4 calls earlier). EXHAUSTIVE on every run: all sequences of the six '
+         'accessors up to length 3 on 3 fixed requests (thorough: up to length 4 on 7 requests). Observed per call: returned-request identity '
+         '(same/new/nil) for the implicit RouteInfo and for the accessor, MatchedRoute object identity with operation id and params, result (content '
+         'type / format / principal / error code / sorted validation codes + bound values), the ordered effect log (router lookups, authenticator '
+         'calls by scheme, authorizer calls, consumer calls with byte counts), bytes read from the body, and the view through MatchedRouteFrom / '
+         'SecurityPrincipalFrom / SecurityScopesFrom / route.Consumer / route.Authenticator. The model is instantiated with what the stage functions '
+         '(router lookup, runtime.ContentType, NegotiateContentType, the authenticators, validateContentType via BindValidRequest, route.Consumers, '
+         'route.Binder.Bind on an intact and on a drained body) return on fresh copies of the request. Stream R (1 case in 400; tier race: all '
+         'cases, in the -race build): 2-64 mixed requests, each with its own correlation token in path, query, header, body and credentials: first '
+         'each request ALONE against a middleware.Serve handler of its own, then all of them from n goroutines released together (each request '
+         'twice) against ONE handler built the same way, at GOMAXPROCS 1/2/4/8/16; status, content type, body (producer name, operation, every bound '
+         'value, consumer name) and what the authorizer saw (principal, route, params, admitting schemes, scopes) must equal the observation made '
+         "alone, and only the request's own token may appear in them. Non-trivial = a memo hit or a stale value occurs (A), every R case; distinct = "
+         'distinct input lines.',
+ 'search_s': 40,
+ 'thorough_n': 250000,
+ 'thorough_seeds': 3,
+ 'trusted_base': ['reading of the property text into the Lean `Spec` (human step, RtVerif/Model/<id>.lean)',
+                  'correspondence check (differential: Go harness /verif/harness -> protocol lines -> compiled Lean driver rtdriver evaluating Model '
+                  'and Spec); coverage bounded by the generators',
+                  "factgen (go/ast extraction of constants/tables into RtVerif/Gen/Facts.lean) and the driver's line parser",
+                  'the stage functions are PARAMETERS of the memo machine (router lookup = C01/C05, runtime.ContentType + validateContentType = C06, '
+                  'NegotiateContentType = C07, authenticators = C02, parameter binder = C03): the theorems hold for all of them; the correspondence '
+                  'instantiates them per case with what the real functions return on a fresh copy of the request',
+                  "net/http's Request.WithContext (shallow copy sharing Header, URL and Body) and context.WithValue/Value (newest entry under a key "
+                  'wins) are modelled as an association list; MatchedRoute pointers as an index into a per-request object list plus the immutable '
+                  'part',
+                  'for go.mod language versions below 1.22 `for _, ra := range ras` has one variable: after a FAILED authentication '
+                  'route.Authenticator shows the last alternative looked at (modelled via the regenerated go directive; not part of the property)',
+                  'step model of part (b): a step of request i reads immutable shared configuration and its own objects only — justified '
+                  'structurally by the regenerated facts (per_request_writes_are_private) and observed by stream R; not derived from the Go memory '
+                  'model']}
+
 # properties not claimed (with the reason) and hook commits in /repo (none so far: no hooks needed)
 NOT_APPLICABLE = {}
 HOOK_COMMITS = []
